@@ -278,6 +278,7 @@ PROPS['C19'] = {
         {'test': 'TestC19Transplant', 'timeout': {'quick': 600, 'thorough': 900}},
         {'test': 'TestC19ArchDigest', 'helpers': ['digest', {'name': 'digest', 'goarch': '386'}], 'timeout': {'quick': 300, 'thorough': 900}},
         {'test': 'TestC19JsWasm', 'timeout': {'quick': 600, 'thorough': 900}},
+        {'test': 'TestC19NativeOverlay', 'timeout': {'quick': 600, 'thorough': 900}},
     ],
 }
 MANIFEST_TEXT['C19'] = {'claim': 'compile-time constant assertions built under every GOOS/GOARCH pair of the toolchain (complete enumeration); unsupported-architecture behaviour for every GOARCH without tables; non-Linux stub sources transplanted to the host and executed against generated policies',
@@ -424,7 +425,7 @@ MANIFEST_TEXT['C16'] = {'claim': 'generated listings from a site model, hostile 
                         'technique': 'property-based testing (rapid) with metamorphic oracle (concatenation law) and containment against a site model; native fuzz target (thorough)'}
 
 _PROFILER = [{'name': 'seccomp-profiler', 'from_repo': 'github.com/elastic/go-seccomp-bpf/cmd/seccomp-profiler', 'tags': ''}, 'fakego', 'hello',
-             {'name': 'hello', 'goarch': '386'}]
+             {'name': 'hello', 'goarch': '386'}, {'name': 'hellodyn', 'cgo': True, 'env': 'hello_dyn'}]
 
 PROPS['C17'] = {
     'level': 'fault_enumeration',
@@ -477,6 +478,8 @@ PROPS['C14']['units'].append({'test': 'TestC14FirstUse', 'checks': {'quick': 240
 PROPS['C05']['units'].append({'test': 'TestC05OtherProcesses', 'helpers': ['digest', {'name': 'digest', 'goarch': '386'}], 'timeout': {'quick': 300, 'thorough': 900}})
 PROPS['C07']['units'].append({'test': 'TestC07OtherProcesses', 'helpers': ['digest', {'name': 'digest', 'goarch': '386'}], 'timeout': {'quick': 300, 'thorough': 900}})
 PROPS['C13']['units'].append({'test': 'TestC13OtherProcesses', 'helpers': ['digest', {'name': 'digest', 'goarch': '386'}], 'timeout': {'quick': 300, 'thorough': 900}})
+PROPS['C04']['units'].append({'test': 'TestC04OtherProcesses', 'helpers': ['digest', {'name': 'digest', 'goarch': '386'}], 'timeout': {'quick': 300, 'thorough': 900}})
+PROPS['C12']['units'].append({'test': 'TestC12JsWasm', 'timeout': {'quick': 600, 'thorough': 900}})
 PROPS['C07']['units'].append({'test': 'TestC07JsWasm', 'timeout': {'quick': 600, 'thorough': 900}})
 PROPS['C01']['units'].append({'test': 'TestC01OtherProcesses', 'helpers': ['digest', {'name': 'digest', 'goarch': '386'}], 'timeout': {'quick': 300, 'thorough': 900}})
 PROPS['C02']['units'].append({'test': 'TestC02OtherProcesses', 'helpers': ['digest', {'name': 'digest', 'goarch': '386'}], 'timeout': {'quick': 300, 'thorough': 900}})
